@@ -355,6 +355,8 @@ def parse_timestamp(x, **kwargs):
 
 
 def parse_interval(x, **kwargs):
+    if isinstance(x, datetime.timedelta):
+        return x
     return datetime.timedelta(x)
 
 
